@@ -113,3 +113,9 @@ def fill(claim, NA):
         "Trusted: CrossHair+z3 (finite stream shapes, completeness certified); concrete timecodes (arithmetic: C06).",
         "CrossHair symbolic execution + z3 over stream-shape selectors",
     )
+    claim(
+        "C17",
+        "Bounded symbolic execution of SCCWriter.write and of reading its output back: for captions built from word lengths around the 32-column limit, every basic-table character, and cue spacings from sparse to just feasible, the output is a Scenarist header plus timecoded lines of four-hex-digit odd-parity words addressing consecutive rows ending at row 15 with at most 32 columns per row and breaks only at spaces, re-reading gives the same words, one caption per caption, non-decreasing timecodes, each caption visible within three frames of its start. The timecode arithmetic (ASTs of write PASS 2/3 and _format_timestamp) is decided exactly for every integer microsecond of one-second bands including the minute and hour carries.",
+        "Trusted: CrossHair+z3; vlib/ref608.py; AST->LIA translator with native calls for the text layout (validated on concrete starts every run). The 24 h range is covered only on bands (the four-floor float chain forks too much).",
+        "CrossHair symbolic execution + z3; AST->QF_LIA exact binary64 encoding on bands",
+    )
